@@ -133,5 +133,5 @@ Proof. vm_compute. repeat split; eexists; reflexivity. Qed.
 Example c18_example_inspect :
   exists d, auto_detect ["Card"; "Posting Date"; "Trans Date"; "Merchant Name"; "City"; "Debit"] = Some d /\
     a_date d = 1 /\ a_desc d = 3 /\ a_amount d = 5 /\ a_loc d = Some 4 /\
-    suggest d = "{_}, {date:%m/%d/%Y}, {_}, {description}, {location}, {amount}".
+    suggest d = "{_}, {date:" ++ detect_date_format ++ "}, {_}, {description}, {location}, {amount}".
 Proof. eexists. vm_compute. repeat split; reflexivity. Qed.
